@@ -8,7 +8,6 @@ import (
 	"encoding/json"
 	"fmt"
 	"os"
-	"os/exec"
 	"path/filepath"
 	"sort"
 	"strconv"
@@ -409,15 +408,17 @@ func replay(dir string) {
 		os.Exit(2)
 	}
 	abs, _ := filepath.Abs(dir)
-	cmd := exec.Command(testbin, "-test.run", "^TestReplay$", "-test.v", "-test.timeout", "0")
-	cmd.Dir = verif
-	cmd.Env = append(os.Environ(), "VERIF_REPLAY="+abs, "VERIF_GODERIVE="+goderive, "VERIF_SCRATCH="+scratch,
-		"VERIF_FINDINGS="+filepath.Join(verif, "known_findings.json"), "VERIF_DIR="+verif, "VERIF_REPO="+gorun.Repo())
-	cmd.Stdout, cmd.Stderr = os.Stdout, os.Stderr
-	if err := cmd.Run(); err != nil {
+	st := runReplays(id, testbin, goderive, []string{abs}, filepath.Join(scratch, "r"))[abs]
+	fmt.Print(st.output)
+	switch st.status {
+	case "fail":
 		fmt.Printf("VIOLATION property=%s replay=%s\n", id, abs)
 		os.RemoveAll(scratch)
 		os.Exit(1)
+	case "inconclusive":
+		fmt.Printf("INCONCLUSIVE: the replay did not run to a verdict\n")
+		os.RemoveAll(scratch)
+		os.Exit(2)
 	}
 	fmt.Printf("replay %s: property %s holds on this case\n", abs, id)
 }
